@@ -63,6 +63,9 @@ def instances(tier):
     for codes in (["UP", "090", "360"], ["000", "VER", "090"], ["HNE", "HNN", "HNZ"], ["045", "UP", "135"], ["270", "180", "UP"]):
         for order in ([(0, 1, 2)] if tier == "quick" else list(itertools.permutations((0, 1, 2)))[:3]):
             out.append({"name": f"peer_{'_'.join(codes)}_{''.join(map(str, order))}", "func": "run_peer", "kwargs": {"codes": codes, "order": list(order)}})
+    # an explicit degrees_from_north (any value, 0 included) overrides what the PEER direction codes say
+    for codes in (["045", "UP", "135"], ["HNE", "HNN", "HNZ"], ["UP", "090", "360"]):
+        out.append({"name": f"peer_{'_'.join(codes)}_explicit", "func": "run_peer", "kwargs": {"codes": codes, "order": [0, 1, 2], "explicit": True}})
     for part in ("saf_row_expr", "mshark_row_expr", "headers"):
         for eol in ("\n", "\r\n"):
             out.append({"name": f"regex_{part}_{'crlf' if eol != chr(10) else 'lf'}", "func": "run_regex", "kwargs": {"part": part, "eol": eol}, "timeout": 280 if tier == "quick" else 900})
@@ -236,7 +239,7 @@ def peer_expect(codes):
     return ns, ew, vt, 0.0
 
 
-def run_peer(rep, tier, codes, order):
+def run_peer(rep, tier, codes, order, explicit=False):
     DW = L()["data_wrangler"]
     rows = 2
     codes = [codes[i] for i in order]
@@ -252,7 +255,7 @@ def run_peer(rep, tier, codes, order):
             text += "  ".join("%.7E" % x for x in v) + "\n"
             files.append(io.StringIO(text))
         try:
-            rec = DW._read_peer(files)
+            rec = DW._read_peer(files, degrees_from_north=Sym.var("deg", ctx, lo=0, hi=359)) if explicit else DW._read_peer(files)
             err = None
         except ValueError as e:
             rec, err = None, str(e)
@@ -260,9 +263,18 @@ def run_peer(rep, tier, codes, order):
 
     for ctx, (vals, rec, err) in rep.explore(run, max_paths=5):
         ns, ew, vt, deg = peer_expect(codes)
+        if explicit:
+            if rec is None:
+                rep.obligations += 1
+                rep.candidate({"kind": "peer", "codes": codes, "deg": 0.0}, f"PEER files with direction codes {codes} and an explicit orientation: error={err}", key="peer-components")
+                continue
+            W = lambda m: {"kind": "peer", "codes": codes, "deg": concretiser(m)(z3.Real("deg")) if m is not None else 0.0}   # noqa
+            rep.prove(ctx, "PEER: an explicit degrees_from_north (0 included) is the orientation of the recording, whatever the direction codes say",
+                      [Sym.lift(rec.degrees_from_north) != z3.Real("deg")], witness=W, key="peer-orientation")
+            deg = rec.degrees_from_north   # the rest of the comparison below concerns the components
         rep.obligations += 1
         ok = rec is not None and np.allclose(np.asarray(rec.ns.amplitude, dtype=float), vals[ns]) and np.allclose(np.asarray(rec.ew.amplitude, dtype=float), vals[ew]) \
-            and np.allclose(np.asarray(rec.vt.amplitude, dtype=float), vals[vt]) and float(rec.degrees_from_north) == deg and abs(float(rec.ns.dt_in_seconds) - 0.01) < 1e-15
+            and np.allclose(np.asarray(rec.vt.amplitude, dtype=float), vals[vt]) and (explicit or float(rec.degrees_from_north) == deg) and abs(float(rec.ns.dt_in_seconds) - 0.01) < 1e-15
         if ok:
             rep.discharged += 1
         else:
@@ -387,9 +399,14 @@ def replay(spec):
             files.append(_io.StringIO(f"PEER NGA STRONG MOTION DATABASE RECORD\nEvent, 1/1/2000, Station, {code}\nACCELERATION TIME SERIES IN UNITS OF G\nNPTS=   2, DT=   .0100 SEC\n" + "  ".join("%.7E" % x for x in v) + "\n"))
         ns, ew, vt, deg = peer_expect(codes)
         try:
-            rec = DW._read_peer(files)
+            rec = DW._read_peer(files, degrees_from_north=float(spec["deg"])) if spec.get("deg") is not None else DW._read_peer(files)
         except Exception as e:   # noqa
             return {"reproduced": True, "key": "peer-components", "detail": f"{type(e).__name__}: {e}"[:200]}
+        if spec.get("deg") is not None:
+            want = float(spec["deg"])
+            if abs(float(rec.degrees_from_north) - want) > 1e-9:
+                return {"reproduced": True, "key": "peer-orientation", "detail": f"PEER codes {codes} read with explicit degrees_from_north={want}: the recording has degrees_from_north={rec.degrees_from_north}"}
+            deg = rec.degrees_from_north
         ok = np.allclose(rec.ns.amplitude, vals[ns]) and np.allclose(rec.ew.amplitude, vals[ew]) and np.allclose(rec.vt.amplitude, vals[vt]) and rec.degrees_from_north == deg
         return {"reproduced": not ok, "key": "peer-components", "detail": f"codes {codes}: ns {rec.ns.amplitude.tolist()} ew {rec.ew.amplitude.tolist()} vt {rec.vt.amplitude.tolist()} deg {rec.degrees_from_north} (expected files {ns},{ew},{vt}, {deg})"}
     if spec["kind"] == "regex":
